@@ -64,6 +64,7 @@ pub enum TypeKind {
 pub struct TypeInfo {
     pub rust: String,
     pub coq: String,
+    pub destruct: bool,
     pub kind: TypeKind,
 }
 
@@ -94,6 +95,8 @@ pub struct FnInfo {
     pub is_extern: bool,
     pub is_const: bool,
     pub identity_ctor: bool,
+    pub identity_coeffs: bool,
+    pub also: Vec<(String, Option<String>, Vec<String>)>,
     pub label: String,
     pub params: Vec<Param>,
     pub has_self: bool,
@@ -111,6 +114,7 @@ pub struct Ctx {
     pub by_key: HashMap<(String, String), Vec<usize>>, // (impl type or "", fn name)
     pub imports: Vec<String>,
     pub derived_eq: HashMap<String, String>,
+    pub consts: HashMap<String, String>,
 }
 
 pub fn norm_tokens<T: quote::ToTokens>(t: &T) -> String {
@@ -205,7 +209,9 @@ impl Ctx {
                         }
                         if self.types.contains_key(&id) && last.arguments.is_none() {
                             if let TypeKind::Transparent(inner) = &self.types[&id].kind {
-                                return inner.clone();
+                                if *inner != Ty::Unknown {
+                                    return inner.clone();
+                                }
                             }
                             return Ty::Named(id);
                         }
@@ -324,7 +330,15 @@ pub fn load(repo: &str, spec: &Value) -> Result<Ctx, String> {
         by_key: HashMap::new(),
         imports: spec["imports"].as_array().map(|a| a.iter().filter_map(|x| x.as_str().map(|s| s.to_string())).collect()).unwrap_or_default(),
         derived_eq: HashMap::new(),
+        consts: HashMap::new(),
     };
+    if let Some(m) = spec.get("consts").and_then(|x| x.as_object()) {
+        for (k, v) in m {
+            if let Some(s) = v.as_str() {
+                ctx.consts.insert(k.clone(), s.to_string());
+            }
+        }
+    }
     if let Some(m) = spec.get("derived_eq").and_then(|x| x.as_object()) {
         for (k, v) in m {
             if let Some(s) = v.as_str() {
@@ -338,11 +352,17 @@ pub fn load(repo: &str, spec: &Value) -> Result<Ctx, String> {
         let rust = jstr(t, "rust").ok_or("spec type without rust name")?;
         ctx.types.insert(
             rust.clone(),
-            TypeInfo { rust: rust.clone(), coq: jstr(t, "coq").unwrap_or_default(), kind: TypeKind::Transparent(Ty::Unknown) },
+            TypeInfo {
+                rust: rust.clone(),
+                coq: jstr(t, "coq").unwrap_or_default(),
+                destruct: t.get("destruct").and_then(|x| x.as_bool()).unwrap_or(true),
+                kind: TypeKind::Transparent(Ty::Unknown),
+            },
         );
         ctx.type_order.push(rust);
     }
     let empty = Generics { into: HashMap::new() };
+    let mut type_errs: Vec<String> = Vec::new();
     // transparent types first
     for pass in 0..2 {
         for t in tspecs {
@@ -387,11 +407,11 @@ pub fn load(repo: &str, spec: &Value) -> Result<Ctx, String> {
                                     let sf = nf.named.iter().find(|x| x.ident.as_ref().map(|i| i == rf.as_str()).unwrap_or(false));
                                     match sf {
                                         Some(sf) => fields.push((rf, cf, ctx.ty_of(&sf.ty, None, None, &empty))),
-                                        None => return Err(format!("spec type {}: field {} not in the Rust struct", rust, rf)),
+                                        None => { type_errs.push(format!("spec type {}: field {} not in the Rust struct", rust, rf)); continue; }
                                     }
                                 }
                                 if fields.len() != nf.named.len() {
-                                    return Err(format!("spec type {}: the Rust struct has {} fields, the spec lists {}", rust, nf.named.len(), fields.len()));
+                                    type_errs.push(format!("spec type {}: the Rust struct has {} fields, the spec lists {}", rust, nf.named.len(), fields.len()));
                                 }
                                 kind = Some(TypeKind::Record { ctor: jstr(t, "ctor").unwrap_or_default(), fields });
                             }
@@ -409,15 +429,15 @@ pub fn load(repo: &str, spec: &Value) -> Result<Ctx, String> {
                                         let tys: Vec<Ty> = match &sv.fields {
                                             syn::Fields::Unnamed(u) => u.unnamed.iter().map(|x| ctx.ty_of(&x.ty, None, None, &empty)).collect(),
                                             syn::Fields::Unit => vec![],
-                                            syn::Fields::Named(_) => return Err(format!("spec type {}: struct-like variant {}", rust, rv)),
+                                            syn::Fields::Named(_) => { type_errs.push(format!("spec type {}: struct-like variant {}", rust, rv)); vec![] }
                                         };
                                         variants.push((rv, cv, tys));
                                     }
-                                    None => return Err(format!("spec type {}: variant {} not in the Rust enum", rust, rv)),
+                                    None => type_errs.push(format!("spec type {}: variant {} not in the Rust enum", rust, rv)),
                                 }
                             }
                             if variants.len() != e.variants.len() {
-                                return Err(format!("spec type {}: the Rust enum has {} variants, the spec lists {}", rust, e.variants.len(), variants.len()));
+                                type_errs.push(format!("spec type {}: the Rust enum has {} variants, the spec lists {}", rust, e.variants.len(), variants.len()));
                             }
                             kind = Some(TypeKind::Enum { variants });
                         }
@@ -427,11 +447,21 @@ pub fn load(repo: &str, spec: &Value) -> Result<Ctx, String> {
             }
             match kind {
                 Some(k) => ctx.types.get_mut(&rust).unwrap().kind = k,
-                None => return Err(format!("spec type {}: no matching definition in {}", rust, file)),
+                None => type_errs.push(format!("spec type {}: no matching definition in {}", rust, file)),
             }
         }
     }
 
+    // a record/enum of the spec that no longer matches the source is dropped: every function that
+    // touches it then fails with "type ... is outside the subset"
+    let mut bad_types: HashMap<String, String> = HashMap::new();
+    for e in &type_errs {
+        if let Some(name) = e.strip_prefix("spec type ").and_then(|r| r.split(':').next()) {
+            bad_types.insert(name.to_string(), e.clone());
+            ctx.types.remove(name);
+            ctx.type_order.retain(|t| t != name);
+        }
+    }
     // functions
     for fs in spec["functions"].as_array().unwrap() {
         let file = jstr(fs, "file").unwrap();
@@ -465,6 +495,21 @@ pub fn load(repo: &str, spec: &Value) -> Result<Ctx, String> {
             is_extern: fs.get("extern").and_then(|x| x.as_bool()).unwrap_or(false),
             is_const,
             identity_ctor: fs.get("identity_ctor").and_then(|x| x.as_bool()).unwrap_or(false),
+            identity_coeffs: fs.get("identity_coeffs").and_then(|x| x.as_bool()).unwrap_or(false),
+            also: fs
+                .get("also")
+                .and_then(|x| x.as_array())
+                .map(|a| {
+                    a.iter()
+                        .filter_map(|x| {
+                            jstr(x, "model").map(|m| {
+                                let props = x.get("props").and_then(|p| p.as_array()).map(|p| p.iter().filter_map(|y| y.as_str().map(|s| s.to_string())).collect()).unwrap_or_default();
+                                (m, jstr(x, "model_app"), props)
+                            })
+                        })
+                        .collect()
+                })
+                .unwrap_or_default(),
             label,
             params: vec![],
             has_self: false,
@@ -606,6 +651,9 @@ pub fn load(repo: &str, spec: &Value) -> Result<Ctx, String> {
                 syn::ReturnType::Type(_, t) => ctx.ty_of(t, self_ty.as_ref(), output.as_ref(), &g),
             };
             info.body = Body::Block(fd.block.clone());
+        }
+        if let Some(e) = impl_ty.as_ref().and_then(|t| bad_types.get(t)) {
+            info.load_error = Some(format!("untranslatable: {}", e));
         }
         let key = (impl_ty.clone().unwrap_or_default(), name.clone());
         let i = ctx.fns.len();
